@@ -4,8 +4,12 @@ from lib import coq_list as L, coq_Z as Z
 THEOREMS = ['C09_small_factors_spec', 'C09_repeat', 'C09_repeat_language', 'C09_opt', 'C09_plus', 'C09_star',
             'C09_language_of_counts', 'C09_helpers_inlined', 'C09_example',
             'C09_compile_preserves_language', 'C09_compile_pruned_preserves_language', 'C09_compile_total',
-            'C09_compile_example', 'C09_compile_example_sentence']
-GEN_DEPS = ['Consts', 'SmallFactors']
+            'C09_compile_example', 'C09_compile_example_sentence',
+            'C09_terminal_repeat_exact', 'C09_terminal_exact_exact', 'C09_terminal_opt_exact', 'C09_terminal_star_exact',
+            'C09_terminal_plus_exact', 'C09_terminal_definition_exact', 'C09_terminal_match_sound',
+            'C09_terminal_match_none', 'C09_terminal_regexp_string', 'C09_re_match_sound', 'C09_re_match_none',
+            'C09_re_fullmatch', 'C09_terminal_example']
+GEN_DEPS = ['Consts', 'SmallFactors', 'RegexHoles']
 RULE = ('(a) small_factors(n, mf) for sampled n <= 2000 and mf in 3..9 against the regenerated Gallina function; '
         '(b) EBNF_to_BNF._generate_repeats(x, n, m) helper-rule structure (helpers inlined to a tree) against '
         'Ebnf/Repeat.generate_repeats for sampled 0<=n<=m incl. all m in 46..54; (c) end-to-end: grammars with '
@@ -18,8 +22,20 @@ RULE = ('(a) small_factors(n, mf) for sampled n <= 2000 and mf in 3..9 against t
         'acceptance by Earley of all words up to length 5 equals the stated-count meaning of the expression; '
         'shared-operand: the same operand under 2-3 operators in one rule and across rules, both orders: acceptance of '
         'every combination of 0..7 occurrences per site equals the count oracle. '
+        'nested-operators: operator over group over operator, 13 inner x 6 outer operators incl. factored repeats '
+        '(N >= 50) as group bodies, plain / double group / trailing symbol / sequence operand / three levels: compiled '
+        'rules vs the model and acceptance of 0-3 blocks with inner counts at the bounds and one off; '
+        'terminal-model: terminal definitions (operators x operand kinds, ordered pairs of alternatives with prefix '
+        'relations, every regexp-special character in a literal, terminal references; random nested definitions in the '
+        'thorough tier): lark\'s own terminal tree -> Re/TermPattern.compile must give lark\'s Pattern kind, value, '
+        'to_regexp(), min/max width; re.match end / re.fullmatch on lark\'s regexp == Re/Lang.bt_match / bt_fullmatch on '
+        'sampled and near-miss inputs (n-1, m+1 occurrences); '
         'non-trivial = distinct (n,m) with m >= 2 / distinct (grammar,k)')
-TRUSTED_BASE = ['hand model Ebnf/Compile.v of EBNF_to_BNF (expr, rules_cache, _add_rule, _add_recurse_rule, _add_repeat_rule, '
+TRUSTED_BASE = ['hand model Re/Lang.bt of Python re (sre) matching order on the AST of the compiled regexp, and of sre_parse getwidth '
+                '(Re/Width.v): tied by comparison of re.match/re.fullmatch/min_width/max_width on generated inputs; re.escape '
+                'is modelled by hand (Re/Syntax.re_escape); TerminalTreeToPattern format strings and sort key regenerated '
+                '(Gen/RegexHoles.v), its shape pinned by translator/gen_regex.py',
+                'hand model Ebnf/Compile.v of EBNF_to_BNF (expr, rules_cache, _add_rule, _add_recurse_rule, _add_repeat_rule, '
                 '_add_repeat_opt_rule, _generate_repeats) + SimplifyRule_Visitor + unused-rule filter, tied by comparison '
                 'of the compiled rule sets up to helper renaming',
                 'hand model Ebnf/Repeat.v of _add_repeat_rule/_add_repeat_opt_rule/_generate_repeats/expr (tied by '
@@ -389,7 +405,9 @@ def compile_stream(ctx):
     rng = ctx.rng
     wide = 3 if ctx.widen else 1
     shared = CC.shared_cases(rng, ctx.scale(14, 150) * wide)
-    exprs = (list(FIXED_EXPRS) + [c[2] for c in shared if not c[5]] + CC.factor_cases(rng, ctx.scale(5, 40) * wide)
+    nested = CC.nested_cases()
+    exprs = (list(FIXED_EXPRS) + [e for _, e in nested] + [c[2] for c in shared if not c[5]]
+             + CC.factor_cases(rng, ctx.scale(5, 40) * wide)
              + [CC.gen_expr(rng) for _ in range(ctx.scale(70, 900) * wide)])
     cases, meta = [], []
     for e in exprs:
@@ -411,7 +429,9 @@ def compile_stream(ctx):
     if os.environ.get('C09_DUMP'):
         open(os.environ['C09_DUMP'], 'w').write('\n'.join(cases))
     t_coq = time.time()
-    bad, errs = ctx.coq_bad_indices('c09compile', CC.IMPORTS_COMPILE, 'compile_check_s', cases, chunk=100)
+    import lib as _lib
+    chunk = max(25, min(100, -(-len(cases) // max(1, _lib.NCPU))))
+    bad, errs = ctx.coq_bad_indices('c09compile', CC.IMPORTS_COMPILE, 'compile_check_s', cases, chunk=chunk)
     ctx.note('compile-structure: %d cases, %d characters of Coq literals, vm_compute comparison %.1f s'
              % (len(cases), sum(len(c) for c in cases), time.time() - t_coq))
     for er in errs:
@@ -436,7 +456,7 @@ def compile_stream(ctx):
                           'compiled rules of %r differ from the model (no word up to length 6 separates them)'
                           % text.split('\n')[0])
     # the property itself at the language level, on the implementation (independent of the model)
-    nfix = len(exprs) - ctx.scale(70, 900) * wide
+    nfix = len(meta) - ctx.scale(70, 900) * wide
     sample = list(FIXED_EXPRS[:20:2]) + [m[0] for m in meta[nfix:][:ctx.scale(10, 150) * wide]]
     for e in sample:
         if any(x[0] == 'rep' and x[3] >= 6 for x in CC.subexprs(e)):
@@ -452,6 +472,35 @@ def compile_stream(ctx):
             ctx.violation('compile-count', {'grammar': text, 'text': w, 'expect_accept': want}, True,
                           '%r is %s but %s by the stated counts' % (w, 'rejected' if want else 'accepted',
                                                                      'matches' if want else 'does not match'))
+    # nested-operator family (operator over group over operator, incl. groups whose body is a factored repeat):
+    # acceptance of 0, 1, 2, 3 blocks with inner counts at the bounds, and one occurrence off, against the count oracle
+    from lark import Lark
+    from lark.exceptions import UnexpectedInput
+    t_n = time.time()
+    for label, e in nested:
+        text = CC.grammar_text(e)
+        try:
+            p = Lark(text, parser='earley', lexer='basic', ambiguity='forest')
+        except Exception as ex:
+            ctx.violation('compile-construct', {'grammar': text, 'expect_error': False, 'error': repr(ex)[:300]}, True,
+                          'a grammar with nested operators (%s) cannot be built: %r' % (label, ex))
+            continue
+        nbad = 0
+        for w in CC.nested_words(label, e, 260):
+            want = CC.spec_accepts(e, w)
+            try:
+                p.parse(w)
+                got = True
+            except UnexpectedInput:
+                got = False
+            ctx.count('nested-operators', key=(text, w), kind=label.split(':')[0], accepted=got)
+            if got != want and nbad < 2:
+                nbad += 1
+                ctx.violation('nested-operator-count', {'grammar': text, 'text': w, 'expect_accept': want}, True,
+                              '%s: %s %d characters (%r...) is %s but %s by the stated counts'
+                              % (label, text.split('\n')[0], len(w), w[:12], 'rejected' if want else 'accepted',
+                                 'matches' if want else 'does not match'))
+    ctx.note('nested-operators: %d grammars, %.1f s' % (len(nested), time.time() - t_n))
     # shared-operand family: the same operand under 2-3 different operators (rules_cache sharing), in one rule
     # (also compared structurally above) and across rules; acceptance for every combination of occurrence counts
     from lark import Lark
@@ -505,8 +554,13 @@ def compile_stream(ctx):
 
 
 def correspond(ctx):
+    import time as _t
     rng = ctx.rng
     wide = 3 if ctx.widen else 1
+    marks = [('start', _t.time())]
+
+    def mark(name):
+        marks.append((name, _t.time()))
     # (a) small_factors -----------------------------------------------------------
     from lark.utils import small_factors
     cases, meta = [], []
@@ -538,6 +592,7 @@ def correspond(ctx):
                       {'no_longer_checks': 'small_factors model/implementation agreement', 'n': n, 'max_factor': mf,
                        'impl': r}, False, 'model differs from implementation on small_factors(%d,%d)' % (n, mf))
 
+    mark('a')
     # (b) helper-rule structure ------------------------------------------------------
     pairs = set()
     for m in range(46, 55):
@@ -602,16 +657,26 @@ def correspond(ctx):
     for i in bad:
         ctx.violation('correspondence:Ebnf/Repeat.op_* vs EBNF_to_BNF.expr', {'no_longer_checks': 'operator structure', 'op': '?+*'[i]},
                       False, 'compiled structure of operator %s differs from the model' % '?+*'[i])
+    mark('b')
     # (c) end to end ---------------------------------------------------------------------
     for (g, unit, per, n, m, kind) in e2e_cases(rng, ctx):
         run_e2e(ctx, g, unit, per, n, m, kind)
+    mark('c')
     # (d) operators inside terminals -------------------------------------------------------
     terminal_stream(ctx)
+    mark('d')
+    # (d') the regular-expression level inside the model: TerminalTreeToPattern + re against coq/Re/
+    from props import C09_regex
+    C09_regex.run(ctx)
+    mark('d-model')
     # (e) the EBNF-to-BNF compilation as a whole ------------------------------------------------
     import time
     t0 = time.time()
     compile_stream(ctx)
     ctx.note('streams (e) compile-structure / compile-language / shared-operand took %.1f s' % (time.time() - t0))
+    mark('e')
+    ctx.note('stage times (s since check start %.1f): ' % (marks[0][1] - ctx.t0)
+             + ', '.join('%s %.1f' % (marks[i][0], marks[i][1] - marks[i - 1][1]) for i in range(1, len(marks))))
 
 
 def replay(ctx, case):
@@ -638,9 +703,13 @@ def replay(ctx, case):
             return not w['expect_error']
     if 'word' in w:
         import re
-        from lark import Lark
-        p = Lark(w['grammar'], parser='lalr')
-        td = [t for t in p.terminals if t.name == 'T'][0]
+        from lark.load_grammar import load_grammar
+        g, _ = load_grammar(w['grammar'], '<replay>', [], False)
+        try:
+            terms, _r, _i = g.compile(['start'], set())
+        except Exception:
+            return True
+        td = [t for t in terms if t.name == 'T'][0]
         return (re.fullmatch(td.pattern.to_regexp(), w['word']) is not None) != w['expected_match']
     if 'grammar' in w and 'text' in w:
         from lark import Lark
